@@ -698,6 +698,7 @@ func runC13(rc *runCtx) *RunResult {
 			variants = 2
 		}
 		// computeRef answers q on fresh objects (variant v); status "" = ok, "skip", or a panic text
+		centreKnown, centreIn := false, false
 		computeRef := func(q Op, v int) (refAns Ans, refCells []uint64, refCellsOK bool, label string, status string) {
 			status = func() (p string) {
 				defer func() {
@@ -739,6 +740,15 @@ func runC13(rc *runCtx) *RunResult {
 					rw[q.Obj2] = refObject(descs[q.Obj2], h.LiveB, h.MutsB, 0)
 				}
 				refAns = execQuery(rw, &q, nil)
+				if q.Kind == QContainsCell || q.Kind == QIntersectsCell {
+					// ground truth for the one-sided check below: is the cell's centre inside?
+					cq := q
+					cq.Kind = QContainsPoint
+					cq.P = q.Cell.Center()
+					if ca := execQuery(rw, &cq, nil); len(ca) == 1 {
+						centreKnown, centreIn = true, ca[0] == 1
+					}
+				}
 				if structureSensitive(&q) {
 					if ix := rw[q.Obj].index(); ix != nil && ix.IsFresh() {
 						refCells = cellList(ix)
@@ -791,6 +801,22 @@ func runC13(rc *runCtx) *RunResult {
 				rc.inc("probe_relation_true_between_distinct_objects", 1)
 			}
 			comparable, equal, subj, ref := compare(q, v, refAns, refCells, refCellsOK)
+			if !comparable && centreKnown && len(h.ans) == 1 {
+				// The cell predicates are conservative and may differ when the index is cut differently,
+				// but only in one direction: "contains the cell" implies the cell's centre is inside,
+				// "does not intersect the cell" implies it is not.
+				rc.inc("cell_predicate_one_sided_checks", 1)
+				if q.Kind == QContainsCell && h.ans[0] == 1 && !centreIn {
+					res.Viol = &Violation{Kind: "history-dependent-answer", Site: "ContainsCell/" + objKindNames[od.Kind],
+						Detail: fmt.Sprintf("step%d %s: after the history ContainsCell is true, but on %s the centre of that cell is not inside", i, h.Q.String(), label)}
+					return res
+				}
+				if q.Kind == QIntersectsCell && h.ans[0] == 0 && centreIn {
+					res.Viol = &Violation{Kind: "history-dependent-answer", Site: "IntersectsCell/" + objKindNames[od.Kind],
+						Detail: fmt.Sprintf("step%d %s: after the history IntersectsCell is false, but on %s the centre of that cell is inside", i, h.Q.String(), label)}
+					return res
+				}
+			}
 			if h.HasAlt && v == 0 {
 				// The caller changed the options object after the query was created. Whether a live
 				// query follows such changes (it shares the object) or keeps the options it was
